@@ -135,11 +135,14 @@ package resp
 //@ ghost var rbSkip bool
 //@ ghost var rbBody int
 //@ ghost var rbChunked bool
+// rbTrailer: the trailer section behind a chunked body was read (consumed) - announced or not, it is on the wire and
+// would otherwise be taken for the start of the next response on the connection
+//@ ghost var rbTrailer bool
 //@ func ReadRespBody(resp, r, maxBodySize) err
 //@   props C11
 //@   abstract
 //@   noinline
-//@   modifies rbSkip, rbBody, rbChunked
+//@   modifies rbSkip, rbBody, rbChunked, rbTrailer
 //@   ghostset-at-entry rbSkip = true
 //@   ghostset-at-entry rbBody = 0
 //@   ghostset-at-entry rbChunked = false
@@ -148,6 +151,9 @@ package resp
 //@   ghostset after ReadBody: rbBody = ite(result1 == nil, 1, -1)
 //@   ghostset after ContentLength#1: rbChunked = (result == -1)
 //@   assert before ReadTrailer: rbBody == 1 && rbChunked
+//@   ghostset-at-entry rbTrailer = false
+//@   ghostset after ReadTrailer: rbTrailer = true
+//@   top-ensures rbBody == 1 && rbChunked && err == nil ==> rbTrailer
 //@   assert before SetContentLength: rbBody == 1
 //@   top-ensures rbSkip ==> rbBody == 0
 //@   top-ensures rbSkip ==> err == nil
